@@ -34,9 +34,9 @@ import (
 
 type globShared struct {
 	cacheResults bool
-	p        *Prog
-	retCache map[*ssa.Function]bool
-	busy     map[*ssa.Function]bool
+	p            *Prog
+	retCache     map[*ssa.Function]bool
+	busy         map[*ssa.Function]bool
 }
 
 func (g *globShared) isModuleGlobal(v ssa.Value) (*ssa.Global, bool) {
@@ -66,9 +66,9 @@ func refLike(t types.Type) bool {
 // analyse computes the shared values of fn. origin[v] names the package-level variable.
 func (g *globShared) analyse(fn *ssa.Function) (shared map[ssa.Value]string) {
 	shared = map[ssa.Value]string{}
-	holds := map[ssa.Value]string{}  // local containers (map / slice values) whose elements are shared
-	direct := map[string]string{}    // local cells (variable or field of a local struct) that contain a shared value
-	elems := map[string]string{}     // local cells that contain a container whose elements are shared
+	holds := map[ssa.Value]string{} // local containers (map / slice values) whose elements are shared
+	direct := map[string]string{}   // local cells (variable or field of a local struct) that contain a shared value
+	elems := map[string]string{}    // local cells that contain a container whose elements are shared
 	mark := func(v ssa.Value, origin string) bool {
 		if v == nil || origin == "" {
 			return false
